@@ -259,6 +259,25 @@ Theorem C01_bytes_roundtrip : forall f b, wfb_basket f b = true ->
 Proof. exact bytes_roundtrip. Qed.
 Print Assumptions C01_bytes_roundtrip.
 
+(* reader side for SJSON: ANY characters that read() decodes to a basket (no domain condition) give objects that are written
+   and read back as exactly themselves, on bytes, with the format given or detected *)
+Theorem C01_sjson_reader_fixpoint : forall t o, read_bytes Sjson t = Ok o ->
+  exists c, write_w Sjson o = Ok c /\ read_bytes Sjson (content_text c) = Ok o /\ read_auto c = Ok o.
+Proof. exact sjson_reader_fixpoint. Qed.
+Print Assumptions C01_sjson_reader_fixpoint.
+
+(* the FASTA sniffer with ANY leading whitespace (also CR / CRLF, which the text layer translates) shorter than its window *)
+Theorem C01_fasta_sniff_leading_ws_any : forall pre t, forallb is_ws pre = true -> length pre < 50 -> is_fasta (pre ++ GT :: t) = true.
+Proof. exact fasta_sniff_leading_ws_any. Qed.
+Print Assumptions C01_fasta_sniff_leading_ws_any.
+
+(* each plugin of /repo has exactly one reader and one writer entry point: read() and iter_() run the same function, and
+   'No read / write support' cannot happen *)
+Theorem C01_plugins_complete : forall f, xorb (has_read f) (has_iter f) = true /\ xorb (has_append f) (has_write f) = true
+  /\ (forall b, exists c, write_dispatch f false true b = Ok c) /\ (forall b, exists c, write_dispatch f true false b = Ok c).
+Proof. exact plugins_complete. Qed.
+Print Assumptions C01_plugins_complete.
+
 (* ---- write(basket, name): os.path.splitext on POSIX names and the extension table of /repo ---- *)
 (* directories do not matter *)
 Theorem C01_basename_dir : forall d b, no_byte SLASH b = true -> basename (d ++ SLASH :: b) = b /\ basename b = b.
